@@ -1,6 +1,8 @@
 """C11 match() and search() implement I-Regexp whole-string / substring matching."""
 from __future__ import annotations
 
+import os
+
 from vlib import lib, shrink
 from vlib.gen import queries as Q
 from vlib.hyp import drive, rng
@@ -74,6 +76,9 @@ def gen_atom(r, depth):
     if k == 5:
         return r.choice(["\\n", "\\r", "\\t"]), "escaped-meta"
     if k == 6:
+        if r.random() < 0.3:
+            # a dot right after an escape (an escaped backslash, an escaped dot, a category): still a wildcard
+            return r.choice(["\\\\.", "\\..", "\\p{L}.", "\\\\\\..", "\\n."]), "dot-after-escape"
         return ".", "dot"
     if k in (7, 8):
         return gen_class(r), "class"
@@ -161,8 +166,12 @@ def gen_subject(pattern_ast, r):
                 # perturb: insert/replace/delete one character, or wrap it (search vs match)
                 j = r.randrange(len(s) + 1)
                 c = r.choice(ALPHABET)
-                kind = r.randrange(4)
-                if kind == 0:
+                kind = r.randrange(5)
+                if kind == 4 and s:
+                    # a line terminator (or its look-alike) in place of one character: decisive wherever a dot stood
+                    j = r.randrange(len(s))
+                    s = s[:j] + r.choice(["\r", "\n", "\r", "\u2028", "\x85"]) + s[j + 1:]
+                elif kind == 0:
                     s = s[:j] + c + s[j:]
                 elif kind == 1 and s:
                     s = s[:j] + s[j + 1:]
@@ -237,7 +246,45 @@ def expect(fn, pattern, s):
     return iregexp.match(pattern, s) if fn == "match" else iregexp.search(pattern, s)
 
 
+def examine_isolated(case):
+    """Patterns nested far deeper than any real one: match()/search() must neither raise nor take the process down.
+    Observed in a child process (a crash there is a result, not the end of the shard).  Beyond 100 levels only
+    'returns a boolean' is required: an engine may give up on such a pattern, which the property's 'false for what
+    is not usable as a pattern' covers."""
+    import subprocess
+    import sys as _sys
+    n, fn, shape = case["n"], case["fn"], case["shape"]
+    prog = (
+        "import sys, json\n"
+        "sys.setrecursionlimit(%d)\n"
+        "import jsonpath_rfc9535 as jp\n"
+        "n=%d\n"
+        "p={'group':'('*n+'a'+')'*n, 'class-alt':'('+'(a|'*n+'b'+')'*n+')', 'quant':'('*n+'a'+')?'*n}[%r]\n"
+        "try:\n"
+        "    r=jp.find('$[?%s(@.s, @.p)]', [{'s':'a','p':p}])\n"
+        "    print('RESULT ok', len(r))\n"
+        "except BaseException as e:\n"
+        "    print('RESULT raised', type(e).__name__)\n"
+    ) % (case.get("limit", 1000), n, shape, fn)
+    env = dict(os.environ)
+    pr = subprocess.run([_sys.executable, "-X", "utf8", "-c", prog], capture_output=True, text=True, env=env, timeout=600)
+    out = [l for l in pr.stdout.splitlines() if l.startswith("RESULT")]
+    what = f"{fn}('a', <{shape} pattern nested {n} levels>)"
+    if pr.returncode != 0 or not out:
+        sig = -pr.returncode if pr.returncode < 0 else pr.returncode
+        return {"bucket": f"crash:deep-pattern:exit-{sig}", "what": f"{what} ended the interpreter (exit status {pr.returncode}: "
+                f"{'segmentation fault' if sig in (11, 139) else (pr.stderr or '')[-120:]})", "expected": "true or false", "observed": pr.returncode}
+    if out[-1].startswith("RESULT raised"):
+        et = out[-1].split()[-1]
+        return {"bucket": f"raised:{et}:deep-pattern", "what": f"{what} raised {et}", "expected": "true or false", "observed": et}
+    if n <= 100 and out[-1] != "RESULT ok 1":
+        return {"bucket": f"{fn}:false-negative:deep-pattern", "what": f"{what} is false, I-Regexp says true", "expected": True, "observed": False}
+    return None
+
+
 def examine(case):
+    if case.get("kind") == "deep-pattern":
+        return examine_isolated(case)
     q, doc = build(case)
     fn, pattern = case["fn"], case["pattern"]
     if case["delivery"].startswith("literal") and not isinstance(pattern, str):
@@ -298,6 +345,15 @@ def plan(tier, seed):
 def run_shard(spec, shard):
     if spec["mode"] == "fixed":
         for fn in ("match", "search"):
+            for shape in ("group", "class-alt", "quant"):
+                for n in ((30, 100, 400, 3000) if spec["tier"] == "quick" else (30, 100, 250, 400, 1000, 3000, 20000)):
+                    if n == 20000 and shape != "group":
+                        continue
+                    case = {"kind": "deep-pattern", "fn": fn, "shape": shape, "n": n}
+                    shard.case(key=(fn, shape, n), nontrivial=True, classes={"deep-pattern"}, sample=case)
+                    f = examine(case)
+                    if f:
+                        shard.fail(f["bucket"], case, f)
             for p in INVALID_PATTERNS:
                 if iregexp.valid(p):
                     raise HarnessError(f"the reference accepts the 'invalid' pattern {p!r}")
@@ -362,6 +418,8 @@ def run_shard(spec, shard):
 
 
 def minimise(case, failure, tier):
+    if case.get("kind") == "deep-pattern":
+        return case, failure
     kind = failure["bucket"].split(":")[:2]
     cur = dict(case)
     if "subject" in failure:
@@ -386,6 +444,8 @@ def minimise(case, failure, tier):
 
 
 def signature(case, failure):
+    if case.get("kind") == "deep-pattern":
+        return "C11:" + failure["bucket"]
     if has_aj(case.get("pattern")) and "false-negative" in failure["bucket"]:
         return "C11:iregexp-check:multi-digit-quantifier"
     if has_af(case.get("pattern")) and "false-positive" in failure["bucket"]:
